@@ -1,9 +1,11 @@
 (* Property C02: HCI byte streams are re-framed into the same packets under any chunking.
    Statements only; every theorem is about the table regenerated from the current
    bumble/transport/common.py (Gen/C02Tables.v: packet_info, usb_splitters). *)
+From Coq Require Import String.
 From Coq Require Import ZArith List Bool.
-From BV Require Import Model.Framer Gen.C02Tables Proofs.Framer.
+From BV Require Import Model.Framer Model.Sx Model.FramerShape Gen.C02Tables Gen.C02Shape Proofs.Framer.
 Import ListNotations.
+Open Scope list_scope.
 Open Scope Z_scope.
 
 (* ---- obligations on the regenerated tables (re-evaluated on every run) *)
@@ -23,6 +25,79 @@ Print Assumptions C02_table_is_hci.
 Theorem C02_usb_splitters_match_table : splitters_ok packet_info usb_splitters = true.
 Proof. vm_compute. reflexivity. Qed.
 Print Assumptions C02_usb_splitters_match_table.
+
+(* ---- obligations on the statement skeletons of the anchored functions, regenerated from
+   the current source on every run (Gen/C02Shape.v) and compared with the skeletons the
+   model was written from (Model/FramerShape.v): an edit to a statement, a condition, a
+   bound, the order of two statements or the branch a call sits on breaks one of these,
+   whether or not a generated input exercises it. *)
+
+(* all 39 recorded functions / statement groups, in order *)
+Theorem C02_shapes_match_source : shapes_eqb src_shapes expected_shapes = true.
+Proof. vm_compute. reflexivity. Qed.
+Print Assumptions C02_shapes_match_source.
+
+(* the same, one by one for the functions the model follows statement by statement
+   (so that a failure names the function) *)
+Theorem C02_parser_constants_match_source :
+  shape_matches "PacketParser.constants" src_shapes expected_PacketParser_constants = true.
+Proof. vm_compute. reflexivity. Qed.
+Print Assumptions C02_parser_constants_match_source.
+
+Theorem C02_reset_matches_source :
+  shape_matches "PacketParser.reset" src_shapes expected_PacketParser_reset = true.
+Proof. vm_compute. reflexivity. Qed.
+Print Assumptions C02_reset_matches_source.
+
+Theorem C02_feed_data_matches_source :
+  shape_matches "PacketParser.feed_data" src_shapes expected_PacketParser_feed_data = true.
+Proof. vm_compute. reflexivity. Qed.
+Print Assumptions C02_feed_data_matches_source.
+
+Theorem C02_data_received_matches_source :
+  shape_matches "StreamPacketSource.data_received" src_shapes
+    expected_StreamPacketSource_data_received = true.
+Proof. vm_compute. reflexivity. Qed.
+Print Assumptions C02_data_received_matches_source.
+
+Theorem C02_pull_readers_match_source :
+  shape_matches "PacketReader.next_packet" src_shapes expected_PacketReader_next_packet &&
+  shape_matches "AsyncPacketReader.next_packet" src_shapes expected_AsyncPacketReader_next_packet = true.
+Proof. vm_compute. reflexivity. Qed.
+Print Assumptions C02_pull_readers_match_source.
+
+Theorem C02_splitter_matches_source :
+  shape_matches "PacketSplitter.__init__" src_shapes expected_PacketSplitter___init__ &&
+  shape_matches "PacketSplitter.feed" src_shapes expected_PacketSplitter_feed &&
+  shape_matches "UsbPacketSource.queue_packet" src_shapes expected_UsbPacketSource_queue_packet &&
+  shape_matches "UsbPacketSource.transfer_callback" src_shapes expected_UsbPacketSource_transfer_callback = true.
+Proof. vm_compute. reflexivity. Qed.
+Print Assumptions C02_splitter_matches_source.
+
+Theorem C02_servers_match_source :
+  shape_matches "tcp_server.setup" src_shapes expected_tcp_server_setup &&
+  shape_matches "TcpServerProtocol.connection_made" src_shapes expected_TcpServerProtocol_connection_made &&
+  shape_matches "TcpServerProtocol.data_received" src_shapes expected_TcpServerProtocol_data_received &&
+  shape_matches "unix_server.setup" src_shapes expected_unix_server_setup &&
+  shape_matches "UnixServerProtocol.connection_made" src_shapes expected_UnixServerProtocol_connection_made &&
+  shape_matches "UnixServerProtocol.data_received" src_shapes expected_UnixServerProtocol_data_received &&
+  shape_matches "WsServerTransport.on_connection" src_shapes expected_WsServerTransport_on_connection &&
+  shape_matches "netsim.Server.lease_sink" src_shapes expected_netsim_Server_lease_sink &&
+  shape_matches "netsim.HciDevice.pump_loop" src_shapes expected_netsim_HciDevice_pump_loop = true.
+Proof. vm_compute. reflexivity. Qed.
+Print Assumptions C02_servers_match_source.
+
+(* read directly off the current source: every server entry point resets the shared
+   parser, feed_data resets before it raises, and the emission test is the one modelled *)
+Theorem C02_resets_present_in_source :
+  has_leaf "self.packet_source.parser.reset()" src_TcpServerProtocol_connection_made &&
+  has_leaf "self.packet_source.parser.reset()" src_UnixServerProtocol_connection_made &&
+  has_leaf "self.source.parser.reset()" src_WsServerTransport_on_connection &&
+  has_leaf "self.parser.reset()" src_netsim_Server_lease_sink &&
+  has_leaf "self.reset()" src_PacketParser_feed_data &&
+  has_leaf "self.state == PacketParser.NEED_BODY and (not self.bytes_needed)" src_PacketParser_feed_data = true.
+Proof. vm_compute. reflexivity. Qed.
+Print Assumptions C02_resets_present_in_source.
 
 (* ---- push parser (PacketParser.feed_data) *)
 
@@ -134,6 +209,16 @@ Theorem C02_ws_new_client_fresh : forall s pkts msgs,
 Proof. intros. apply ws_new_client_fresh; solve [eassumption | exact C02_table_wf]. Qed.
 Print Assumptions C02_ws_new_client_fresh.
 
+(* Android netsim controller transport (gRPC server; after fix D02b): a device that
+   leases the sink is framed from the initial state; each message is (type, packet). *)
+Theorem C02_netsim_new_client_fresh : forall s pkts msgs,
+  forallb (wf_packet packet_info) pkts = true ->
+  concat (map (fun m => fst m :: snd m) msgs) = concat pkts ->
+  let '(s', outs) := netsim_connection packet_info s msgs in
+  s' = reset /\ concat outs = map Packet pkts.
+Proof. intros. apply netsim_new_client_fresh; solve [eassumption | exact C02_table_wf]. Qed.
+Print Assumptions C02_netsim_new_client_fresh.
+
 (* ---- pull readers (PacketReader, AsyncPacketReader) *)
 
 (* On EVERY byte string (well-formed or not, truncated anywhere) the blocking reader
@@ -199,6 +284,43 @@ Proof.
 Qed.
 Print Assumptions C02_usb_none_early.
 
+(* On EVERY byte string (a splitter has no invalid input): any chunking gives exactly the
+   packets and the left-over buffer of a single call, and every call terminates. *)
+Theorem C02_usb_chunking_irrelevant_any_bytes : forall ty lo ls chunks,
+  In (ty, (lo, ls)) usb_splitters -> forallb bytes_ok chunks = true ->
+  let '(p1, o1, st1) := split_feed lo ls [] (concat chunks) in
+  st1 = Ok /\ fst (split_feeds lo ls [] chunks) = p1 /\
+  concat (snd (split_feeds lo ls [] chunks)) = o1.
+Proof.
+  intros ty lo ls chunks Hin Hok.
+  exact (usb_any_chunking packet_info usb_splitters ty lo ls chunks
+           C02_usb_splitters_match_table Hin Hok).
+Qed.
+Print Assumptions C02_usb_chunking_irrelevant_any_bytes.
+
+(* ---- the property in one statement (stream framers) *)
+
+(* For every list of well-formed packets and every chunking of their stream: the push
+   parser delivers exactly the packets and is back in its initial state; after the first
+   k chunks, for every k, exactly the packets wholly inside them have been delivered; both
+   pull readers return exactly the packets from the same bytes; and a client of a
+   tcp/unix or WebSocket server that sends these chunks gets exactly these packets
+   delivered whatever state earlier clients left the shared parser in. *)
+Theorem C02_all_stream_framers : forall pkts chunks,
+  forallb (wf_packet packet_info) pkts = true -> concat chunks = concat pkts ->
+  (fst (feeds packet_info reset chunks) = reset /\
+   concat (snd (feeds packet_info reset chunks)) = map Packet pkts) /\
+  (forall k, concat (snd (feeds packet_info reset (firstn k chunks))) =
+             map Packet (whole_within pkts (len (concat (firstn k chunks))))) /\
+  (pr_all packet_info (concat chunks) = (pkts, RAtEnd) /\
+   apr_all packet_info (concat chunks) = (pkts, RTooShort)) /\
+  (forall s, let '(s', outs) := srv_run packet_info s (Connect :: map Data chunks) in
+             s' = reset /\ concat outs = map Packet pkts) /\
+  (forall s, let '(s', outs) := ws_connection packet_info s (map Some chunks) in
+             s' = reset /\ concat outs = map Packet pkts).
+Proof. intros pkts chunks H Hc. exact (all_stream_framers packet_info pkts chunks C02_table_wf H Hc). Qed.
+Print Assumptions C02_all_stream_framers.
+
 (* ---- non-vacuity *)
 
 (* well-formed packets of every type exist, with empty and non-empty bodies *)
@@ -225,6 +347,18 @@ Proof. vm_compute. reflexivity. Qed.
 Example C02_usb_run :
   split_feeds 1 1 [] (cut [1; 1; 3; 1] [14; 0; 62; 2; 9; 8; 19; 1; 5]) =
   ([], [[]; [[14; 0]]; []; [[62; 2; 9; 8]]; [[19; 1; 5]]]).
+Proof. vm_compute. reflexivity. Qed.
+
+(* D02b: the netsim witness (a device whose last message is a truncated event, then a
+   device sending a complete event) is delivered by the fixed life cycle *)
+Example C02_netsim_run :
+  let '(s1, _) := netsim_connection packet_info reset [(4, [14; 4; 1])] in
+  netsim_connection packet_info s1 [(4, [14; 1; 0])] = (reset, [[Packet [4; 14; 1; 0]]]).
+Proof. vm_compute. reflexivity. Qed.
+
+(* a splitter run on bytes that are not a whole number of packets: the left-over buffer *)
+Example C02_usb_leftover :
+  split_feeds 2 2 [] [[1; 32; 3]; [0; 9; 9; 9; 2]] = ([2], [[]; [[1; 32; 3; 0; 9; 9; 9]]]).
 Proof. vm_compute. reflexivity. Qed.
 
 (* D02, why the reset on connect is needed: on a parser left inside a packet by a client
